@@ -96,6 +96,21 @@ func ruleC18ModScope(c *Ctx, r *Rep) {
 				return true
 			})
 			ok := early && capArg == "len(scope.funcs)" && guarded && strings.Contains(body, ".funcs[l:]")
+			// every function the module added is renamed: the loop body is the assignment alone (a skip for names that
+			// already carry a prefix lets a module's own imports show through its alias)
+			uncond := false
+			ast.Inspect(fl.Body, func(q ast.Node) bool {
+				if rs, ok := q.(*ast.RangeStmt); ok {
+					uncond = len(rs.Body.List) > 0
+					for _, st := range rs.Body.List {
+						if _, ok := st.(*ast.AssignStmt); !ok {
+							uncond = false
+						}
+					}
+				}
+				return true
+			})
+			r.Check(uncond, "defer:prefix:unconditional", d.Pos(), "the prefixing loop renames every function the module added, without a condition or a skip: %v (double prefixing is what hides the imports of an imported module: a::b::f cannot be written)", uncond)
 			prefix = prefix || ok
 			r.Check(ok, "defer:prefix", d.Pos(), "for an aliased import a deferred closure prefixes `alias::` onto scope.funcs[l:] with l = %q captured at registration, before the module is compiled: %v — capturing the length late would leave the module's functions unprefixed; a lower index would rename the importer's own functions", capArg, ok)
 		}
